@@ -176,8 +176,17 @@ class Facts:
         if self.aliases:
             texts = _aliases.apply(texts, self.aliases)
             raw = {name: json.loads(t) for name, t in texts.items()}
+        self.field_aliases = _aliases.field_aliases(raw, self.aliases)
+        _aliases.apply_fields(raw, self.field_aliases)
         for name in CRATES:
             self.crates[name] = Crate(raw[name])
+        # a renamed function keeps its reviewed short name as well (qnames of methods are built from it)
+        renamed_last = {old: old.rsplit("::", 1)[1] for new, old in self.aliases.items() if new.rsplit("::", 1)[1] != old.rsplit("::", 1)[1]}
+        if renamed_last:
+            for c in self.crates.values():
+                for it in c.items:
+                    if it.path in renamed_last and it.dk in ("Fn", "AssocFn"):
+                        it.name = renamed_last[it.path]
         self.fns = []
         self.by_path = {}
         for c in self.crates.values():
